@@ -223,6 +223,8 @@ def check(prop, tier, seed):
         nev, npath = simple.run_lab('call', nstims, tag, 'client_negotiation', annotate=decomp.annotate)
         simple.validate(prop, 'Trace_Call', verdict, nev, npath, 'client_negotiation', cov, clause_filter=p_call.clause_filter('C03'), harness_clauses=p_call.HARNESS)
         cov['samples'].append({'family': 'client_negotiation', 'stimulus': simple.sample_of(nstims)})
+        # ... in builds of tonic with a single compression feature
+        p_call.single_feature_family(prop, tier, seed, verdict, cov, mc_stats)
         # ... and on the wire of the complete transport server, where a response may also be synthesised for a call that failed in a layer
         wstims = p_call.wire_stims(seed, tier)
         wev, wpath = simple.run_lab('call', wstims, tag, 'wire_responses', annotate=decomp.annotate)
@@ -256,13 +258,15 @@ def check(prop, tier, seed):
 def replay(prop, path):
     core.build_harness()
     rows = core.read_ndjson(path)
-    stims = [r['stim'] for r in rows if r.get('e') == 'reset' and 'stim' in r and r.get('lab') != 'call']
+    stims = [r['stim'] for r in rows if r.get('e') == 'reset' and 'stim' in r and r.get('lab') != 'call' and not str(r.get('lab', '')).startswith('vhf:')]
     cstims = [r['stim'] for r in rows if r.get('e') == 'reset' and 'stim' in r and r.get('lab') == 'call']
     verdict = core.Verdict(prop)
     cov = {'traces_validated_against_impl': 0, 'samples': []}
     if stims:
         ev, p = _run_lab('replay', stims, f'{prop}_replay')
         validate(prop, verdict, ev, p, 'replay', cov)
+    from . import p_call
+    p_call.replay_vhf(prop, rows, verdict, cov)
     if cstims:
         from . import p_call, simple
         ev, p = simple.run_lab('call', cstims, f'{prop}_replay', 'replay', annotate=decomp.annotate)
